@@ -73,6 +73,29 @@ Proof.
   - rewrite (sv_fs _ _ Sa). exact Hnd.
 Qed.
 
+(* ------------------------------------------------------------------ the setup up to the reservation: no file is written *)
+Lemma bf_pre_fstep : forall p w wb r, bf_pre p w = (wb, r) -> fstep w wb.
+Proof.
+  intros p w wb r H. unfold bf_pre in H.
+  apply bind_inv in H. destruct H as [[w1 [u [E H]]]|[e [E _]]].
+  2:{ unfold new_assert_no_file, bind, get in E. destruct (cache_has_file (w_new w) p); inversion E; subst; apply fstep_refl. }
+  assert (w1 = w) by (unfold new_assert_no_file, bind, get in E; destruct (cache_has_file (w_new w) p); inversion E; reflexivity).
+  subst w1. clear E.
+  apply bind_inv in H. destruct H as [[w1 [icf [E H]]]|[e [E _]]]; [|discriminate].
+  unfold is_cache_file in E. inversion E; subst w1 icf. clear E.
+  apply bind_inv in H. destruct H as [[w1 [u1 [E H]]]|[e [E _]]].
+  2:{ destruct (path_eqb p (w_cachefile w)); inversion E; subst; apply fstep_refl. }
+  assert (w1 = w) by (destruct (path_eqb p (w_cachefile w)); inversion E; reflexivity). subst w1. clear E.
+  apply bind_inv in H. destruct H as [[w1 [created [E H]]]|[e [E _]]].
+  2:{ apply (prepare_file_creation_fs p _ _ _ E). }
+  pose proof (prepare_file_creation_fs p _ _ _ E) as F1.
+  apply bind_inv in H. destruct H as [[w2 [locked [E2 H]]]|[e [E2 _]]].
+  - inversion H; subst. eapply fstep_trans; [exact F1|].
+    unfold m_bd_started in E2. destruct (bd_started (w_bd w1) p created). inversion E2; subst.
+    split; [reflexivity|]. split; [reflexivity|]. split; [reflexivity|]. intros x f X. exact X.
+  - unfold m_bd_started in E2. destruct (bd_started (w_bd w1) p created). discriminate.
+Qed.
+
 (* ------------------------------------------------------------------ the memo and the context after a whole node *)
 Lemma node_HInv : forall p c f a kw fn w w1 ro,
   HInv w -> old_keys_ok (w_old w) ->
@@ -167,9 +190,7 @@ Section Node.
     assert (Hprogb: forall y, inprog wb y <-> In y st).
     { intro y. unfold inprog. rewrite Hnb. apply (c4_prog _ _ _ _ HC y). }
     assert (Hcondsb: tgt_conds st (w_old wb) p) by (rewrite Hob; exact Hconds).
-    assert (HIb: HInv wb).
-    { destruct (bf_pre p w) as [wx rx] eqn:Ex. inversion Epre; subst wx rx. clear Epre.
-      apply (bf_pre_B _ _ _ _ Ex HI). }
+    assert (HIb: HInv wb) by (apply (fstep_brel _ _ (bf_pre_fstep _ _ _ _ Epre)); exact HI).
     assert (HKb: old_keys_ok (w_old wb)) by (rewrite Hob; exact HK).
     pose proof (Hlook st T W wb s0 p fname sa skw wl cached HSS HIb HKb Hprogb Hcondsb El) as Hdec.
     change (core_hit s s0 p fname sa skw) with (core_hit s0 s0 p fname sa skw) in E2.
